@@ -12,6 +12,8 @@ import (
 	"sort"
 	"strconv"
 	"strings"
+	"sync/atomic"
+	"time"
 
 	"github.com/hashicorp/go-multierror"
 	openfgav1 "github.com/openfga/api/proto/openfga/v1"
@@ -80,7 +82,33 @@ func splitErrs(err error) []parseErr {
 	return out
 }
 
-func parseDSL(text string, modular bool) (res parseResult, model *openfgav1.AuthorizationModel) {
+// parseDSL parses with a deadline: a parse that does not return is reported like a panic ("hang: ..."); its goroutine cannot be
+// stopped, so after three of them the remaining documents of the run are not parsed any more (reported the same way).
+var parseHangs int32
+
+func parseDSL(text string, modular bool) (parseResult, *openfgav1.AuthorizationModel) {
+	if atomic.LoadInt32(&parseHangs) >= 3 {
+		return parseResult{Panic: "hang: not run (three earlier documents did not return)"}, nil
+	}
+	type out struct {
+		res   parseResult
+		model *openfgav1.AuthorizationModel
+	}
+	done := make(chan out, 1)
+	go func() {
+		r, m := parseDSLNow(text, modular)
+		done <- out{r, m}
+	}()
+	select {
+	case o := <-done:
+		return o.res, o.model
+	case <-time.After(30 * time.Second):
+		atomic.AddInt32(&parseHangs, 1)
+		return parseResult{Panic: "hang: the parser did not return within 30 s"}, nil
+	}
+}
+
+func parseDSLNow(text string, modular bool) (res parseResult, model *openfgav1.AuthorizationModel) {
 	defer func() {
 		if p := recover(); p != nil {
 			res = parseResult{Panic: fmt.Sprint(p)}
